@@ -115,7 +115,8 @@ Extract ==
   /\ LET d == DstNorm(dstform)
          m == members[i]
          t == Target(d, m) IN
-     IF ~Accepts(d, m) THEN status' = "rejected" /\ UNCHANGED <<fs, i>>
+     IF m.root # "abs2" /\ t = d THEN status' = "atdst" /\ UNCHANGED <<fs, i>>
+     ELSE IF ~Accepts(d, m) THEN status' = "rejected" /\ UNCHANGED <<fs, i>>
      ELSE IF Conflict(t, IsDir(m)) THEN status' = "oserror" /\ UNCHANGED <<fs, i>>
      ELSE /\ fs' = fs \cup {[path |-> p, kind |-> "d"] : p \in Dirs(t, IsDir(m))}
                       \cup (IF IsDir(m) THEN {} ELSE {[path |-> t, kind |-> "f"]})
@@ -127,6 +128,10 @@ Finish == /\ status = "running" /\ i > Len(members)
           /\ status' = "done"
           /\ UNCHANGED <<dstform, members, host, i, fs>>
 
+(* a member that names the destination directory ITSELF ("./", "a/..", the absolute spelling of the
+   destination) neither escapes nor lies inside: the statement fixes nothing for it - the code
+   rejects it, accepting a directory entry "./" (as archive tools write) would be as good.  The
+   model stops there with status "atdst": verdict and effect inside the destination are free. *)
 Next == Extract \/ Finish
 Spec == Init /\ [][Next]_vars /\ WF_vars(Next)
 
